@@ -174,12 +174,17 @@ def c17_models(tier):
     bads = [(0, "ok")] + [(at, cls) for at in (1, 2, 3) for cls in ("shape", "below", "above", "nan", "index")]
     inv = ["MalformedNeverExecutes", "RejectedByDueStep", "MalformedRejected", "FifoDelay"]
     return [env_model("malformed", G[:n], cs, range(1, n + 1), 0, [0], [FOLD_ALL], [(False, -1)],
-                      delays=(0, 1, 2), spaces=("box", "discrete", "boxcash", "boxlots", "disclots"), bads=bads, maxcalls=n,
+                      delays=(0, 1, 2), spaces=("box", "discrete", "boxcash", "boxlots", "disclots", "boxvec"), bads=bads, maxcalls=n,
                       reset_anywhere=False, trade=True, invariants=inv),
             # a space whose bounds exclude zero (the all-zero action is the "below" class there); no delay, because the
             # null action that a delay queues is itself outside such a space
             env_model("malformed-boxpos", G[:n], cs, range(1, n + 1), 0, [0], [FOLD_ALL], [(False, -1)], delays=(0,),
-                      spaces=("boxpos",), bads=bads, maxcalls=n, reset_anywhere=False, trade=True, invariants=inv)]
+                      spaces=("boxpos",), bads=bads, maxcalls=n, reset_anywhere=False, trade=True, invariants=inv),
+            # abandoned and repeated episodes with delayed execution: whatever was still queued when an episode was
+            # abandoned (in-space or malformed) denotes nothing in the next one
+            env_model("malformed-resets", G[:n], cs, range(1, n + 1), 0, [0], [FOLD_ALL], [(False, -1)], delays=(1, 2),
+                      spaces=("box", "discrete"), bads=[(0, "ok"), (1, "nan"), (2, "above")], maxcalls=n + 2,
+                      reset_anywhere=True, trade=True, invariants=inv)]
 
 
 def c17(tier, seed):
